@@ -606,6 +606,10 @@ func (k *Key) UnmarshalCBOR(data []byte) error {
 	if err != nil {
 		return fmt.Errorf("key_ops: %w", err)
 	}
+	if key_ops != nil && len(key_ops) == 0 {
+		// RFC 9052 section 7.1: key_ops => [+ (tstr / int)]
+		return errors.New("key_ops: empty array")
+	}
 	if len(key_ops) > 0 {
 		k.Ops = make([]KeyOp, len(key_ops))
 		for i, op := range key_ops {
